@@ -67,6 +67,31 @@ def inline(func, e, env=None):
     return _Subst(env, 0).visit(copy.deepcopy(e))
 
 
+def walrus_env(func):
+    """name -> value for names bound exactly once in func, by an assignment expression `(name := value)`."""
+    seen, stores = {}, {}
+    for n in iter_own_nodes(func.node):
+        if isinstance(n, ast.NamedExpr) and isinstance(n.target, ast.Name):
+            seen.setdefault(n.target.id, []).append(n.value)
+        if isinstance(n, ast.Name) and isinstance(n.ctx, ast.Store):
+            stores[n.id] = stores.get(n.id, 0) + 1
+    return {k: v[0] for k, v in seen.items() if len(v) == 1 and stores.get(k, 0) == 1 and k not in set(func.params)}
+
+
+class _DropWalrus(ast.NodeTransformer):
+    def visit_NamedExpr(self, node):
+        return self.visit(node.value)
+
+
+def for_matching(func, e):
+    """A copy of e for MATCHING ONLY (never for reasoning about evaluation order): single-assignment temporaries and
+    once-bound assignment-expression targets replaced by their values, `(x := v)` itself by v."""
+    env = dict(single_assignments(func))
+    env.update(walrus_env(func))
+    out = _Subst(env, 0).visit(copy.deepcopy(e))
+    return _DropWalrus().visit(out)
+
+
 def returns(func):
     """[(Return statement, inlined value or None)] of func's own return statements."""
     env = single_assignments(func)
